@@ -286,6 +286,11 @@ def nl_source_arm(ctx, reason):
                 ctx.log('non-linear translator unusable for %s: %s' % (name, e))
     for name, (M, bad) in sorted(nl.items()):
         exp = {k: [tuple(x) if isinstance(x, list) else x for x in v] for k, v in expected.get(name, {}).items()}
+        if name.startswith('ClptSanders') and any((tuple(c) if isinstance(c, (list, tuple)) else c) in exp.get('k0L', []) for c in bad.get('k0L', [])):
+            # the recorded kernel-source defect (row of amplitude 2 in cfk0L) is still there: re-established by exact evaluation of the source
+            ctx.violation('C17 fails on the source as written: %s cfk0L row of the load-asymmetry amplitude' % name,
+                          dict(kind='nl source arm', model=name, identity='k0L', cases=[list(c) for c in bad['k0L'][:8]]),
+                          identity='C17-sanders-k0L-row-of-load-asymmetry-amplitude')
         for field, cases in bad.items():
             new = [c for c in cases if (tuple(c) if isinstance(c, (list, tuple)) else c) not in exp.get(field, [])]
             ctx.evaluations += 1
@@ -327,6 +332,14 @@ def correspondence(ctx):
     if nl_validation(ctx):
         return
     dist = dict(models={}, cones=0, simps=0, imperfect=0, inc_ne_1=0, max_rel_ok_models=0., glue=0)
+    # the recorded per-model findings are re-established on a FIXED witness on every run (the random stream below may or may not draw these models)
+    for model in sorted(KNOWN_MODEL):
+        wcase = dict(model=model, alphadeg=0., method='trapz2d', grid=(24, 28), imp=False, cores=2, inc=1., pdC=False, uTM=0., thetaTdeg=0., betadeg=0.,
+                     amp=2., m=(3, 2, 2), seed=12345, imp_mn=(2, 2))
+        ctx.evaluations += 1
+        for ident, text in property_case(ctx, wcase):
+            if ctx.violation('C17 fails on the implementation: ' + text, dict(kind='case', case=wcase), identity=ident):
+                return
     for k in range(ctx.scale(6, 40)):
         ctx.evaluations += 1
         bad = integratev_case(ctx, rng)
